@@ -274,6 +274,10 @@ def write_side(ctx, art):
     # writers contend for the connection's write lock on different processors
     for i in range(40 if thorough else 8):
         lines.append("wrr %d %d %d %d" % (rng.randrange(1 << 30), rng.choice([40000, 70000, 200000, 300000]), rng.choice([200, 300, 400]), rng.choice([2, 3])))
+    # a write held up in the middle of its frame by a slow reader while the writer's context ends; then further writers
+    for big in ([40000, 200000] if not thorough else [8000, 40000, 70000, 200000, 300000]):
+        for ms in (50, 150):
+            lines.append("wrs %d %d %d" % (rng.randrange(1 << 30), big, ms))
     impl = common.run_test_harness(ctx, art["test"], "TestC07Write", lines, tag="write", timeout=600)
     if impl is None or len(impl) != len(lines):
         return
@@ -283,7 +287,7 @@ def write_side(ctx, art):
         return
     for l, o, j in zip(lines, impl, judge):
         ctx.cov["evaluations"] += 1
-        ctx.count("write-" + ("big" if int(l.split()[2]) > 16384 else "small"))
+        ctx.count("write-" + ("stalled" if l.startswith("wrs") else "big" if int(l.split()[2]) > 16384 else "small"))
         if o.startswith("panic") or o in ("bad-op", "conn-error"):
             ctx.violations.append(common.Violation("no-crash", "C07:wr:panic", "%s -> %s" % (l, o[:200]), {"input": [l], "write_side": True, "observed": o[:400]}))
         elif j != "ok":
